@@ -943,6 +943,12 @@ func DeleteHistoricVersions(ctx context.Context, s *DB, before time.Time) error 
 		if err != nil {
 			return fmt.Errorf("delete node: %s: %w", l, err)
 		}
+		// the node cache doubles as the record of what is already stored:
+		// forget the node, or a later commit that produces the same node
+		// again will not upload it
+		if forgetful, ok := s.cfg.NodeCache.(interface{ Remove(key interface{}) }); ok {
+			forgetful.Remove(fmt.Sprintf("%s/%s", s.persist.NodeURLPrefix(), l))
+		}
 	}
 	for _, l := range roots {
 		_, err := s.s3Client.DeleteObjectWithContext(ctx, &s3.DeleteObjectInput{
